@@ -260,6 +260,11 @@ def handle (j : Json) : Json :=
   | some "nsresolve" =>
       -- the infoset lxml is expected to hand over for the general exporter's output: denoted value, then namespace processing
       xnOut (resolveX [] (xElemG (getTree (fld j "tree")) none 0) [])
+  | some "exportimport" =>
+      -- the whole chain on the model side: exporter's denoted value, namespace processing, raw import
+      match processElement false false [] (resolveX [] (xElemG (getTree (fld j "tree")) none 0) []) [] with
+      | some t => treeJson t
+      | none => .null
   | some "synth" =>
       -- a rule that is not in the table: children spec given in the rules.json shape
       match specOfJson (fld j "spec") with
